@@ -29,9 +29,14 @@ def parse_sexp(text):
     return rd()
 
 
+_TMPS = []        # values of the instructions of the program being evaluated (for WTmp)
+
+
 def ev(e, ins, widths):
-    """concrete evaluation of a (body-less) wexpr: -> (value, width)"""
+    """concrete evaluation of a wexpr: -> (value, width)"""
     op = e[0]
+    if op == "WTmp":
+        return _TMPS[int(e[1])]
     if op == "WIn":
         i = int(e[1]); return ins[i], widths[i]
     if op == "WConst":
